@@ -26,16 +26,16 @@ MODES = ["level", "rise", "fall"]
 
 
 def _map_spec():
-    op = st.one_of(
-        st.tuples(st.just("add"), st.integers(0, 5)).map(list),
-        st.tuples(st.just("add"), st.integers(0, 5)).map(list),
-        st.tuples(st.just("add_bad"), st.sampled_from(["int", "none", "sig"])).map(list),
-        st.tuples(st.just("index"), st.integers(0, 7)).map(list),
-        st.tuples(st.just("index_bad"), st.sampled_from(["int", "none"])).map(list),
-        st.just(["freeze"]),
+    from vlib.gens import weighted
+    op = weighted(
+        (8, st.tuples(st.just("add"), st.integers(0, 5)).map(list)),
+        (1, st.tuples(st.just("add_bad"), st.sampled_from(["int", "none", "sig"])).map(list)),
+        (3, st.tuples(st.just("index"), st.integers(0, 7)).map(list)),
+        (1, st.tuples(st.just("index_bad"), st.sampled_from(["int", "none"])).map(list)),
+        (1, st.just(["freeze"])),
     )
     return st.fixed_dictionaries({"kind": st.just("map"),
-                                  "ops": st.lists(op, min_size=1, max_size=25)})
+                                  "ops": st.lists(op, min_size=4, max_size=25)})
 
 
 @st.composite
@@ -52,7 +52,8 @@ def _sim_spec(draw, tier):
 
 
 def strategy(tier):
-    return st.one_of(_map_spec(), _sim_spec(tier), _sim_spec(tier))
+    from vlib.gens import weighted
+    return weighted((1, _map_spec()), (2, _sim_spec(tier)))
 
 
 def _check_map(spec, stats):
